@@ -72,16 +72,23 @@ package db
 //@   abstracts err == vmErr(S, alias) && (err == nil ==> c != nil && deref(c) == vmVal(S, alias))
 
 //@ func PlanBulkUpdate returns (res, err)
-//@   props C11 C01 C09
+//@   props C11 C01 C09 C10
 //@   uses plan.smt2
 //@   let S = DbState(backend)
 //@   requires forall a string :: dbCfg(S, a) != 0 ==> (forall k in [0, len(typed(dbCfg(S, a), "*gopki/generator/config.CertificateContent").Subject)) :: len(typed(dbCfg(S, a), "*gopki/generator/config.CertificateContent").Subject[k]) >= 1)
-//@   let PLAN = plan(S, strat, entry(1, arr(todo)), entry(1, len(todo)), 0, entry(1, seq(changes)), entry(1, keys(updatedAliases)))
+//@   ghostret T0 (Array Int String) = entry(1, arr(todo))
+//@   ghostret N0 Int = entry(1, len(todo))
+//@   ghostret CH0 (View S_db_Change) = entry(1, seq(changes))
+//@   ghostret U0 (Array String Bool) = entry(1, keys(updatedAliases))
+//@   let PLAN = plan(S, strat, T0, N0, 0, CH0, U0)
+//@   ensures @C11 vlen(CH0) == 0 && N0 == len(typed(dbRoots(S), "[]string")) && (forall a string :: !U0[a])
 //@   ensures @C11,C01 err == nil ==> pOk(PLAN) && seq(res) == pCh(PLAN)
 //@   ensures @C11,C09 err != nil ==> !pOk(PLAN)
+//@   ensures @C10 err == nil ==> (forall k in [0, len(res)) :: dbCfg(S, res[k].Alias) != 0)
 //@   loop 1
 //@     invariant 0 <= i && i <= len(todo)
 //@     invariant updatedAliases != nil
+//@     invariant @C10 forall k in [0, len(changes)) :: dbCfg(S, changes[k].Alias) != 0
 //@     invariant @C11,C01,C09 plan(S, strat, arr(todo), len(todo), i, seq(changes), keys(updatedAliases)) == plan(S, strat, entry(arr(todo)), entry(len(todo)), 0, entry(seq(changes)), entry(keys(updatedAliases)))
 
 // GenerateArtifacts: the entity's stored key or request is reused; the issuer context handed to signing is the
@@ -104,3 +111,21 @@ package db
 //@   ensures err != nil ==> art == nil
 //@   ensures @C01,C14 called("gopki/generator.SignCertBody", 1) ==> err == nil ==> art != nil && fresh(art) && art.Certificate == callres("gopki/generator.SignCertBody", 1, 0) && art.Certificate != nil && art.PrivateKey == CTX.PrivateKey
 //@   ensures @C14 called("gopki/generator.SignCertBody", 1) ==> err == nil ==> art.Request == (if dbArt(S, alias) != 0 then old(SART.Request) else nil)
+
+// BulkUpdate: changes are applied in list order; every file written is the artifact file of a listed alias (given
+// that the listed aliases exist, which planning guarantees); the first failing step ends the run with its error.
+//@ func BulkUpdate returns (n, err)
+//@   props C10 C01 C11
+//@   uses db.smt2 fs.smt2 plan.smt2
+//@   modifies DbState, FsWrites, FsContent
+//@   noframe
+//@   let S0 = old(DbState(backend))
+//@   requires forall k in [0, len(changes)) :: dbCfg(S0, changes[k].Alias) != 0
+//@   ensures @C10 forall p string :: FsWrites(0)[p] ==> (old(FsWrites(0))[p] || (exists k in [0, len(changes)) :: p == dbArtPath(S0, old(changes[k]).Alias)))
+//@   ensures @C10,C11 err == nil ==> n == countGen(old(seq(changes)), len(changes))
+//@   loop 1
+//@     invariant 0 <= idx && idx <= len(changes)
+//@     invariant @C10 forall p string :: FsWrites(0)[p] ==> (old(FsWrites(0))[p] || (exists k in [0, len(changes)) :: p == dbArtPath(S0, old(changes[k]).Alias)))
+//@     invariant @C10 forall a string :: dbArtPath(DbState(backend), a) == dbArtPath(S0, a)
+//@     invariant @C10 forall a string :: dbCfg(S0, a) != 0 ==> dbCfg(DbState(backend), a) != 0
+//@     invariant @C10,C11 certsGenerated == countGen(old(seq(changes)), idx)
